@@ -323,10 +323,40 @@ func (k Keeper) OnTimeoutOutgoingInFlightPacket(
 		}
 
 		// Set the new sequence number
+		previousIndex := outgoingPacket.Index
 		outgoingPacket.Index.Sequence = sequence
 		err = k.SetOutgoingInFlightPacket(ctx, outgoingPacket)
 		if err != nil {
 			return err
+		}
+
+		// Keep the waiting packet pointing at the re-sent packet
+		waitingPacket, found, err := k.GetIncomingInFlightPacket(ctx, outgoingPacket.AckWaitingIndex.PortId, outgoingPacket.AckWaitingIndex.ChannelId, outgoingPacket.AckWaitingIndex.Sequence)
+		if err != nil {
+			return err
+		}
+		if found {
+			newIndex := outgoingPacket.Index
+			switch packetReturn := waitingPacket.Change.(type) {
+			case *types.IncomingInFlightPacket_OutgoingIndexChange:
+				if packetReturn.OutgoingIndexChange.Equal(previousIndex) {
+					waitingPacket.Change = &types.IncomingInFlightPacket_OutgoingIndexChange{
+						OutgoingIndexChange: &newIndex,
+					}
+				}
+			}
+			switch packetForward := waitingPacket.Forward.(type) {
+			case *types.IncomingInFlightPacket_OutgoingIndexForward:
+				if packetForward.OutgoingIndexForward.Equal(previousIndex) {
+					waitingPacket.Forward = &types.IncomingInFlightPacket_OutgoingIndexForward{
+						OutgoingIndexForward: &newIndex,
+					}
+				}
+			}
+			err = k.SetIncomingInFlightPacket(ctx, waitingPacket)
+			if err != nil {
+				return err
+			}
 		}
 	} else {
 		// If remaining retry count is zero:
